@@ -343,6 +343,10 @@ pub struct Tables {
     pub fuel_consts: BTreeMap<String, String>,
     /// type of an associated constant of a generic type parameter, by constant name
     pub assoc_tys: BTreeMap<String, Ty>,
+    /// `assoc <name> fnmut(..)->..`: the method takes `&mut self`; its Coq type is `A -> args -> (A * ret)`
+    pub assoc_mut: BTreeSet<String>,
+    /// `tymap <tokens of a qualified type> <configured type key>`
+    pub tymap: BTreeMap<String, String>,
     pub adts: BTreeMap<String, Adt>,
     pub fns: Vec<FnInfo>,
     pub consts: Vec<ConstInfo>,
@@ -470,6 +474,10 @@ impl Tables {
     }
 
     fn resolve_name0(&self, name: &str, cur_file: &str, self_ty: Option<&str>) -> Option<Ty> {
+        if let Some(q) = name.strip_prefix("qself:") {
+            let k = self.tymap.get(q)?;
+            return self.resolve_name0(k, cur_file, self_ty);
+        }
         if let Some(a) = name.strip_prefix("Self::") {
             return self.assoc_ty(cur_file, self_ty, a);
         }
@@ -526,7 +534,18 @@ impl Tables {
 /// replace generic type parameters by the types of a monomorphic instance (`MajorMinor<i32>`: T := i32)
 pub fn subst_ty(t: &Ty, m: &BTreeMap<String, Ty>) -> Ty {
     match t {
-        Ty::Param(p) => m.get(p).cloned().unwrap_or_else(|| t.clone()),
+        Ty::Param(p) => match m.get(p) {
+            Some(x) => x.clone(),
+            None => {
+                // `G::Assoc` where G is renamed to another type variable
+                if let Some((g, rest)) = p.split_once("::") {
+                    if let Some(Ty::Param(q)) = m.get(g) {
+                        return Ty::Param(format!("{}::{}", q, rest));
+                    }
+                }
+                t.clone()
+            }
+        },
         Ty::Option(x) => Ty::Option(Box::new(subst_ty(x, m))),
         Ty::Range(x) => Ty::Range(Box::new(subst_ty(x, m))),
         Ty::RangeIncl(x) => Ty::RangeIncl(Box::new(subst_ty(x, m))),
